@@ -2,7 +2,8 @@
 import Batchie.Model.DriverLoop
 import Batchie.Model.ScreenIO
 import Batchie.Model.PrepIO
+import Batchie.Model.PrepPipelineIO
 
 open Batchie
 
-def main : IO Unit := DriverLoop.run [PrepIO.handle, ScreenIO.handle]
+def main : IO Unit := DriverLoop.run [PrepPipelineIO.handle, PrepIO.handle, ScreenIO.handle]
